@@ -321,8 +321,8 @@ def gen_schema(rng, with_signers=False, n_rules=None, allow_fn=True, defect24_cl
                 used = set()
                 for _ in range(rng.choice([1, 1, 2])):
                     p = rng.choice(named + own_temps)
-                    if p in used:
-                        continue
+                    if p in used and rng.random() < 0.6:
+                        continue            # otherwise: the same pattern constrained twice in one set (both must hold)
                     used.add(p)
                     opts = []
                     for _ in range(rng.choice([1, 1, 2, 3])):
@@ -518,6 +518,11 @@ def template_schemas(rng, with_signers):
                               R('#alt2', [L(b), P(p1), P(p2), P(p3)], [[(p3, [P(p1)])], [(p3, [P(p2)])]])]})
         out.append({'rules': [R('#s1', [L(a), P(p1), P(p2)], [[(p2, [('fn', '$not', [P(p1)])])]]), R('#s2', [L(a), P(p1), P(p2)], [[(p2, [('fn', '$not', [L(b)])])]]),
                               R('#s3', [L(a), P(p1), P(p2)], [[(p2, [L(b), P(p1)])]])]})
+        # same options in the same order, once as alternatives of one constraint and once as separate constraints
+        out.append({'rules': [R('#m1', [L(a), P(p1), L(b)], [[(p1, [L(a), L(b)])]]), R('#m2', [L(a), P(p1), L(c)], [[(p1, [L(a)]), (p1, [L(b)])]])]})
+        out.append({'rules': [R('#m1', [L(a), P(p1), L(b)], [[(p1, [L(a), L(b)]), (p1, [L(b), L(c)])]]), R('#m2', [L(a), P(p1), L(c)], [[(p1, [L(a), L(b), L(b), L(c)])]]),
+                              R('#m0', [L(a), P(p1), L(a)], [[(p1, [L(a)]), (p1, [L(b), L(b), L(c)])]])]})
+        out.append({'rules': [R('#m1', [P(p1), P('_t'), L(b)], [[('_t', [L(a), P(p1)])]]), R('#m2', [P(p1), P('_t'), L(c)], [[('_t', [L(a)]), ('_t', [P(p1)])]])]})
         # inherited + added constraints on the same pattern
         out.append({'rules': [R('#base', [P(p1), L(a)], [[(p1, [L(b), L(c)])]]), R('#ext', [('ref', '#base'), P(p2)], [[(p1, [L(c), L(a)]), (p2, [P(p1)])]])]})
     else:
@@ -534,6 +539,11 @@ def template_schemas(rng, with_signers):
         out.append({'rules': [R('#pkt', [L('L0'), P(p1)], None, [k1]), R(k1, [L('L1'), P(p1)], [[(p1, [L(a), L(b)])]])]})
         out.append({'rules': [R('#pkt', [L('L0'), P(p1), P(p2)], None, [k1]), R(k1, [L('L1'), P(p3)], [[(p3, [P(p2)])]], ['#root']),
                               R('#root', [L('L2')])]})
+        # key rules with a common prefix whose next pattern carries the same options grouped differently (a|b vs a, b)
+        out.append({'rules': [R('#pkt', [L('L0'), P(p2)], None, [k1, k2]), R(k1, [L('L1'), P(p1), L(a)], [[(p1, [L(a), L(b)])]]),
+                              R(k2, [L('L1'), P(p1), L(b)], [[(p1, [L(a)]), (p1, [L(b)])]])]})
+        out.append({'rules': [R('#pkt', [L('L0'), P(p2)], None, [k1, k2]), R(k2, [L('L1'), P(p1), L(a)], [[(p1, [L(a), L(b)]), (p1, [L(b), L(c)])]]),
+                              R(k1, [L('L1'), P(p1), L(b)], [[(p1, [L(a), L(b), L(b), L(c)])]])]})
         # the shared pattern is the highest-numbered named pattern; temporaries next to it
         out.append({'rules': [R('#pkt', [L('L0'), P(p1), P(p2), P('_')], None, [k1]), R(k1, [L('L1'), P(p1), P(p2)], None, [k2]),
                               R(k2, [L('L2'), P('_'), P(p2)])]})
